@@ -411,9 +411,9 @@ def coder_models():
     tables = [[0.2, 0.5, 0.3], [0.999, 0.0005, 0.0005], [0.1, 0.2, 0.7], [1 / 3, 1 / 3, 1 / 3]]
     return [
         ("categorical", M.Categorical(np.array([0.2, 0.5, 0.3]), perfect=False), M.Categorical(perfect=False),
-         lambda n: (np.array([tables[i % 4] for i in range(n)], dtype=np.float64),), (0, 2)),
+         lambda n: (np.array([tables[i % 4] for i in range(n)], dtype=np.float64).reshape(n, 3),), (0, 2)),
         ("lazy categorical", M.Categorical(np.array([0.1, 0.2, 0.3, 0.4], dtype=np.float32), lazy=True), M.Categorical(lazy=True),
-         lambda n: (np.array([tables[(i + 1) % 4] for i in range(n)], dtype=np.float32),), (0, 3)),
+         lambda n: (np.array([tables[(i + 1) % 4] for i in range(n)], dtype=np.float32).reshape(n, 3),), (0, 3)),
         ("gaussian", M.QuantizedGaussian(-3, 3, 0.4, 1.3), M.QuantizedGaussian(-3, 3),
          lambda n: (np.array(g_means[:n]), np.array(g_stds[:n])), (-3, 3)),
         ("uniform", M.Uniform(5), M.Uniform(),
@@ -533,7 +533,7 @@ def run_bitsback(max_len):
                 if not sealed and (len(w) == 0 or w[-1] == 0):
                     continue
                 for mname, model, family, params, _ in models:
-                    for nsym in (1, 2, 5):
+                    for nsym in (0, 1, 2, 5):
                         for fname, run in decode_forms(None, model, family, params, nsym):
                             n += 1; counters["py_bitsback_cases"] += 1
                             try:
